@@ -18,6 +18,15 @@ def _self_attr(e):
     return None
 
 
+
+class StructuralFinding(AnalysisError):
+    """a role is held by a construct whose place alone breaks a property (e.g. per-recorder state kept in a module-level object):
+    the rules that own the property report it as a violation; for the others the anchor is lost"""
+    def __init__(self, what, cls):
+        AnalysisError.__init__(self, 'anchor-lost role=%s (held by module-level `%s`)' % (what[0], what[1]))
+        self.what = what
+        self.cls = cls
+
 class RecorderRoles(object):
     """Discovers the recorder class and the role of its fields / functions structurally."""
 
@@ -105,8 +114,15 @@ class RecorderRoles(object):
             if len(ordinal) == 1:
                 counters = ordinal
         self.counter = self._one('invocation-counter-field', counters)
-        self.thread_local = self._one('thread-local-field', [
-            f for f, v in self.init_values.items() if isinstance(v, ast.Call) and norm(v.func) in ('threading.local', 'local')])
+        tl_fields = [f for f, v in self.init_values.items() if isinstance(v, ast.Call) and norm(v.func) in ('threading.local', 'local')]
+        self.structural = []     # constructs that break a property by their place alone (reported by the owning rule before anything is interpreted)
+        tl_globals = [(g, v) for g, v in c.module.globals.items() if isinstance(v, ast.Call) and norm(v.func) in ('threading.local', 'local') and
+                      any(isinstance(n, ast.Name) and n.id == g for m_ in c.methods.values() for n in ast.walk(m_.node))] if not tl_fields else []
+        if tl_globals:
+            g, v = tl_globals[0]
+            self.structural.append(('shared-thread-local', g, getattr(v, 'lineno', 1)))
+            raise StructuralFinding(self.structural[0], c)
+        self.thread_local = self._one('thread-local-field', tl_fields)
         rnd = sorted(f for f, v in self.init_values.items() if isinstance(v, ast.Call) and isinstance(v.func, ast.Name) and
                      v.func.id == 'Random')
         if len(rnd) > 1:
